@@ -82,6 +82,8 @@ LInit == /\ rc = [kind |-> "none"] /\ mon = -1 /\ sfStock = Zero /\ cropStore = 
 (* c: the round's constants; wastes, harvest loss and growth are in percent *)
 Begin(c) ==
   /\ mon = -1
+  \* one retail-waste level per scenario: every food eaten by people is grossed up with it
+  /\ Ck("RetailWasteAsConfigured", \A w \in {c.wSf, c.wCrop, c.wMeat, c.wScp, c.wCs, c.wSw} : Eq(w, c.wRetail))
   /\ Ck("WasteFactors", /\ IsGross(c.gSf, c.wSf) /\ IsGross(c.gCrop, c.wCrop) /\ IsGross(c.gMeat, c.wMeat)
                         /\ IsGross(c.gScp, c.wScp) /\ IsGross(c.gCs, c.wCs) /\ IsGross(c.gSw, c.wSw))
   /\ rc' = c
